@@ -2,7 +2,7 @@
 (***************************************************************************)
 (* Mode V for C11.  A trace event is one request:                          *)
 (*   [id, family, n, cfg |-> [recursive, directives], doc,                  *)
-(*    obs |-> [counters, wallUs, refused, aborted, problem]]                *)
+(*    obs |-> [counters, wallUs, cpuUs, refused, aborted, problem]]         *)
 (* cfg: the limit_recursive_depth (-1: default 32) and limit_directives     *)
 (* (-1: unset) of the schema the request ran on.                            *)
 (* counters = <<visit_selection, visit_field, recursive_depth,              *)
@@ -17,8 +17,24 @@
 (*   as written under the request's limits (Limits!Visits_asCodedAt: the    *)
 (*   schema.rs walkers stop at the first violation).                        *)
 (* Drift (never a verdict): counters = Visits_asCodedAt(doc, cfg).          *)
+(*                                                                         *)
+(* Work that no counter sees (the rules' own searches: NoFragmentCycles,    *)
+(* NoUnusedFragments, NoUndefinedVariables ... walk the spread graph after  *)
+(* the visitor pass) is held through obs.cpuUs, the CPU time of the         *)
+(* request's thread (the smallest of up to three runs), with a bound that   *)
+(* is orders of magnitude above the unchanged tree and still polynomial:    *)
+(*   cpuUs <= SlackUs + UsPerUnit * max(PolyBound(doc), as-coded work)      *)
+(* (the as-coded work only matters for the requests DevNoMemo excuses).     *)
+(* Measured on the unchanged tree: < 0.1 us per unit of counted work, the   *)
+(* Fibonacci DAG of 40 unreferenced fragments is answered in well under a   *)
+(* millisecond; a search that walks every path of that DAG needs seconds.   *)
+(* verdict "violation:cpu".  If the hook offers a sixth counter             *)
+(* (cycle_detect: calls of CycleDetector::detect_from) it is judged like    *)
+(* the others, without excuse: counters[6] <= PolyBound, and the drift      *)
+(* compares it with Limits!Visits_cycles.                                   *)
 (***************************************************************************)
 EXTENDS Limits, Json, IOUtils
+CONSTANTS UsPerUnit, SlackUs
 
 ASSUME TLCSet(7, ndJsonDeserialize(IOEnv.TRACE))
 Cases == TLCGet(7)
@@ -29,13 +45,20 @@ Judge(c) ==
       cnt   == c.obs.counters
       coded == Visits_asCodedFastAt(C, c.cfg)
       b     == PolyBound(C)
-      v     == IF c.obs.problem # "" \/ Len(cnt) # 5 THEN "violation:problem"
-               ELSE IF WithinBound(cnt, b) THEN "ok"
+      five  == SubSeq(cnt, 1, 5)
+      cyc   == Visits_cycles(C)
+      ran   == coded[1] > 0                                                  \* validation ran (no limit refused the request before)
+      v0    == IF c.obs.problem # "" \/ Len(cnt) \notin {5, 6} THEN "violation:problem"
+               ELSE IF Len(cnt) = 6 /\ cnt[6] > b THEN "violation:cycle_detect"
+               ELSE IF WithinBound(five, b) THEN "ok"
                ELSE IF TriggerNoMemoAt(C, c.cfg) /\ (\A i \in 1..5 : cnt[i] <= coded[i]) THEN "known:DevNoMemo"
                ELSE "violation"
+      allow == SlackUs + UsPerUnit * Max(b, MaxSet({coded[i] : i \in 1..5}))
+      v     == IF v0 \in {"ok", "known:DevNoMemo"} /\ c.obs.cpuUs > allow THEN "violation:cpu" ELSE v0
+      match == five = coded /\ (Len(cnt) = 6 => cnt[6] = (IF ran THEN cyc ELSE 0))
   \* one JSON string, so that TLC prints the tuple on one line
   IN <<"VERDICT", c.id, ToJson([verdict |-> v, size |-> Size(C), bound |-> b, coded |-> coded,
-                                match |-> (cnt = coded), ideal |-> Visits_idealAt(C, c.cfg)])>>
+                                match |-> match, ideal |-> Visits_idealAt(C, c.cfg), cycles |-> cyc, cpuAllowed |-> allow])>>
 
 TInit == l = 1
 TNext == l <= Len(Cases) /\ PrintT(Judge(Cases[l])) /\ l' = l + 1
